@@ -58,6 +58,16 @@ def gen_dissect(chk):
             for (p, b) in cs:
                 reqs.append("dissect 1 %d %d %d %s" % (p, b, k % 4, enc(list(t))))
             if n <= 3: reqs.append("dissect 0 0 0 %d %s" % (k % 4, enc(list(t))))
+    # token level: every sequence of <= 3 (quick) / 4 tokens over encoded breaks, '+', a letter, the separators and a malformed '%',
+    # all eight option combinations (the state carried from one token to the next must be reset by every kind of token)
+    TOK = [[0x25, 0x30, 0x44], [0x25, 0x30, 0x41], [0x2b], [0x61], [0x3d], [0x26], [0x25, 0x32, 0x30], [0x25], [0x25, 0x34], [0x0d], [0x0a]]
+    for n in range(1, (3 if quick else 4) + 1):
+        for ts in itertools.product(TOK, repeat=n):
+            k += 1
+            t = [c for tk in ts for c in tk]
+            cs = combos if n <= 2 else [combos[k % 8], combos[(k // 8 + 3) % 8], (1, 1 + k % 3)]
+            for (p, b) in cs:
+                reqs.append("dissect 1 %d %d %d %s" % (p, b, k % 4, enc(t)))
     for _ in range(2000 if quick else 100000):
         L = rng.choice([6, 8, 12, 30, 100])
         t = [rng.choice(SPLIT_ALPHA + [0x26, 0x3d, 0x0d, 0x0a, 0x20, rng.randint(1, 255)]) for _ in range(L)]
